@@ -162,3 +162,17 @@ Lemma early_cancel_monitor_rejects :
              (trace (init 1 ignore_ctx true true true) (early_cancel_schedule ++ [LTimeout 0; LClose 0; LClose 0]) ++ [AQuiescent]))
   = [7; 8].
 Proof. vm_compute. reflexivity. Qed.
+
+(** a handler that fails (error return or recovered panic): nothing is published, the message is
+    settled (Nack), the deferred Done runs, Close waits for it and returns nil; accepted *)
+Definition failing_handler_schedule : list label :=
+  [LEmit 0; LDeliver 0; LLoop 0; LLoop 0; LMsg 0; LCall 0; LClose 0; LClose 0; LClose 0; LClose 0; LRun; LRun;
+   LHcClosing 0; LHc 0; LChanClose 0; LPump 0; LPump 0; LSubCloseRet 0; LHc 0; LHc 0; LLoop 0; LLoop 0; LLoop 0; LW1; LW2;
+   LFail 0; LMsg 0; LMsg 0; LW2; LW2; LWaitDone 0; LClose 0; LClose 0; LRun].
+Lemma failing_handler_example :
+  match replay (init 1 ignore_ctx true true true) failing_handler_schedule with
+  | Some s => returned s 0 RNil && quiescent_b s && negb (panicked s) &&
+              match mon_run 1 (fun _ => true) (trace (init 1 ignore_ctx true true true) failing_handler_schedule ++ [AQuiescent]) with [] => true | _ => false end
+  | None => false
+  end = true.
+Proof. vm_compute. reflexivity. Qed.
